@@ -428,3 +428,34 @@ func genQuery(r *rand.Rand, d *dataset) *querySpec {
 	}
 	return q
 }
+
+// genTieProbe: a single selector call over groups that contain several series whose
+// oldest / newest points share a timestamp and differ in value (see genDataset); the
+// time range is open or covers everything, so the tie is what the call has to resolve.
+func genTieProbe(r *rand.Rand, d *dataset, i int) *querySpec {
+	q := &querySpec{Mst: d.U.Msts[i%len(d.U.Msts)], Agg: true}
+	q.Func = []string{"last", "first", "last", "first", "max", "min"}[i%6]
+	q.Field = []string{"fi", "ff", "ff", "fi", "fs", "fb"}[(i/2)%6]
+	if q.Func == "max" || q.Func == "min" {
+		q.Field = []string{"fi", "ff"}[(i/6)%2]
+	}
+	switch (i / 3) % 4 {
+	case 1:
+		q.GroupTags = []string{"region"}
+	case 2:
+		q.GroupTags = []string{"host"}
+	}
+	switch r.IntN(4) {
+	case 0:
+		q.Lo = &bound{0, false}
+	case 1:
+		q.Where = &pred{Op: "tag", Key: "region", Cmp: "=~", Val: "x|y"}
+	case 2:
+		q.Lo = &bound{d.TLo, true}
+		q.Hi = &bound{d.THi, true}
+	}
+	return q
+}
+
+// probeInner: the inner chunk sizes a tie probe is run with, cell by cell.
+var probeInner = []int{1, 2, 1024, 2, 1, 1024, 1, 2}
